@@ -147,21 +147,22 @@ def run(chk, prog):
         chk.require(v is not None and leq(v, inv[("m", n)]), "X1", "seeding leaves the buffer index %s inside the state "
                     "array" % n, where(seedfn), "%s after seeding: %s" % (n, v), function=seedfn["full"],
                     construct="seeded %s" % n)
-    # seed 0 -> 1
-    it0 = interp()
-    st0 = {("l", p["id"]): I(0, 0)}
+    # seed 0 -> 1: after the statements in front of the first loop, seed 0 and seed 1 are indistinguishable to the rest of
+    # the function (every variable that is read later holds the same value)
     first = seedfn["body"]["s"]
-    k = 0
-    while k < len(first) and first[k].get("k") == "Decl":
-        it0.block(first[k], st0, {})
-        k += 1
-    okz = False
-    if k < len(first) and first[k].get("k") == "If":
-        it0.block(first[k], st0, {})
-        okz = st0.get(("l", p["id"])) == I(1, 1)
+    cut = next((i for i, s2 in enumerate(first) if s2.get("k") in ("For", "While", "Do")), len(first))
+    later_reads = {x.get("id") for s2 in first[cut:] for x in C.walk_stmt(s2) if x.get("k") == "Ref" and "id" in x}
+    envs = []
+    for sv in (0, 1):
+        itz = interp()
+        stz = {("l", p["id"]): I(sv, sv)}
+        for s2 in first[:cut]:
+            itz.block(s2, stz, {})
+        envs.append({k2: v for k2, v in stz.items() if k2[0] == "l" and k2[1] in later_reads})
+    okz = envs[0] == envs[1] and all(isinstance(v, (I, G)) for v in envs[0].values())
     chk.require(okz, "X1", "seed 0 is replaced by 1 before it is used", where(seedfn),
-                "after the first test the seed 0 is %s" % (st0.get(("l", p["id"])),), function=seedfn["full"],
-                construct="seed zero")
+                "after the statements in front of the bit loop the seeds 0 and 1 leave different values in the variables read "
+                "later: %s vs %s" % (envs[0], envs[1]), function=seedfn["full"], construct="seed zero")
     # ---- X2: the refill preserves the invariant --------------------------------------------
     chk.analysed(function=incfn["full"])
     it = interp()
